@@ -128,7 +128,7 @@ class C07(core.Prop):
         calc = PandasConstraintCalculator(df)
         ftype = cx.col_ftype(case['col'])
         vj = lambda v: cx.canon_val(cx.val_json(v))
-        cat = case['col']['fam'] == 'category'
+        cat = case['col']['fam'] in ('category', 'category-unused')
         out = {'min': None if cat else vj(calc.calc_min(name)), 'max': None if cat else vj(calc.calc_max(name)),
                'min_length': None, 'max_length': None,
                'null_count': calc.calc_null_count(name), 'non_null_count': calc.calc_non_null_count(name),
@@ -168,7 +168,7 @@ class C07(core.Prop):
                     v['non_integer_count'] = 0
                 if ftype != 'string':
                     v['min_length'] = v['max_length'] = None
-                if case['col']['fam'] == 'category':
+                if case['col']['fam'] in ('category', 'category-unused'):
                     v['min'] = v['max'] = None
             elif isinstance(v, list):
                 v = canon_constraints(v)
